@@ -229,9 +229,9 @@ Definition wr_end (g : glob) (v : nat) (c : Z) : glob * list ev :=
   let x := heap g v in
   (set_heap g (fupd (heap g) v (set_content x c false)) O, [E K_WR_END (O_V v) c]).
 (* CowT::touch(): using a destroyed version is logged as fault 5 *)
+Definition tcodes (d : bool) : list Z := if d then [5] else [].
 Definition touch (g : glob) (v : nat) : glob * list ev :=
-  let d := freed (heap g v) in
-  (set_heap g (heap g) (if d then 1%nat else O), if d then fault_evs v [5] else []).
+  let fs := tcodes (freed (heap g v)) in (set_heap g (heap g) (length fs), fault_evs v fs).
 
 (* ---- the invisible shared_ptr accesses (see the header comment) ---- *)
 (* a reader opens its window on copy x *)
